@@ -153,16 +153,21 @@ Definition printed_digits (lg : Q) (precf prec_out : Z) : Z :=
 
 (* what mps_outfloat does for the formats compact / bare / verbose *)
 Inductive plan :=
-| PZeroExp (l : Z)      (* prints "0.e<l>"  with l = the truncated decimal logarithm of |x| (rdpe_get_dl) *)
+| PZeroExp (l : Z)      (* prints "0.e<l>" *)
 | PSig (d : Z).         (* mpf_out_str (.., 10, true_digit, t) shows the d-digit rounding *)
+
+(* the exponent the "0.e<l>" branch prints since /repo commit 0b5aaff1 (`if (d >= 1.0) l++;`): GMP writes
+   0.ddd * 10^l, so a mantissa d.ddd >= 1 of rdpe_get_dl (logarithm >= 0) needs l + 1.  Here with the logarithm as
+   a bracketed rational; the branch as coded on doubles (rdpe_get_dl with libm) is DpeModel.zero_exp_code. *)
+Definition zero_exp_fixed (lgabs : Q) : Z := if Qle_bool 0 lgabs then trunc lgabs + 1 else trunc lgabs.
 
 (* lg = log10 (rad/|x|) as computed (1e-10 is used for x = 0: lg = -10), lgabs = log10 |x| as computed *)
 Definition outfloat_plan (lg lgabs : Q) (precf prec_out : Z) : plan :=
-  if digit_count lg <=? 0 then PZeroExp (trunc lgabs) else PSig (printed_digits lg precf prec_out).
+  if digit_count lg <=? 0 then PZeroExp (zero_exp_fixed lgabs) else PSig (printed_digits lg precf prec_out).
 
-(* the exponent the "0.e<l>" branch should print (fixes/C17_outfloat_zero_branch_exponent.patch): GMP writes
-   0.ddd * 10^l, so a mantissa d.ddd >= 1 of rdpe_get_dl (logarithm >= 0) needs l + 1 *)
-Definition zero_exp_fixed (lgabs : Q) : Z := if Qle_bool 0 lgabs then trunc lgabs + 1 else trunc lgabs.
+(* the code before 0b5aaff1 printed l = the truncated logarithm (kept for C17_zero_branch_prefix_refuted) *)
+Definition outfloat_plan_prefix (lg lgabs : Q) (precf prec_out : Z) : plan :=
+  if digit_count lg <=? 0 then PZeroExp (trunc lgabs) else PSig (printed_digits lg precf prec_out).
 
 (* ------------------------------------------------------------------ per-format layout *)
 Inductive fmt := Compact | Bare | Verbose | Full | Gnuplot | GnuplotFull.
@@ -174,8 +179,7 @@ Inductive field :=
 | FLitZero            (* the literal "0" *)
 | FRe (signed : bool) (* real part through mps_outfloat *)
 | FIm (signed : bool) (* imaginary part through mps_outfloat; unsigned in verbose format, the sign is in " - I * " *)
-| FRad                (* the radius (DPE, 15 digits) *)
-| FUndef.             (* s->root[ISZERO] = s->root[-1] is read: no defined behaviour *)
+| FRad.               (* the radius (DPE, 15 digits) *)
 
 (* i = None is a zero root (ISZERO) *)
 Definition line_fields (f : fmt) (i : option attrs) : list field :=
@@ -184,7 +188,7 @@ Definition line_fields (f : fmt) (i : option attrs) : list field :=
                     | Some _ => FIm (match f with Verbose => false | _ => true end) end in
   let tail := match f, i with
               | GnuplotFull, Some _ => [FRad; FRad]
-              | GnuplotFull, None => [FUndef; FUndef]
+              | GnuplotFull, None => [FLitZero; FLitZero]   (* "\t0\t0" since /repo commit fixing the read of s->root[-1] *)
               | Full, Some _ => [FRad]
               | Full, None => [FLitZero]          (* " 0" then " ---" *)
               | _, _ => []
